@@ -241,6 +241,13 @@ impl SendBufferPool {
     }
   }
 
+  /// (verification hook) the free list and the in-use flags, for lock-step comparison with the model
+  #[cfg(rzmq_verif)]
+  pub(crate) fn verif_state(&self) -> (Vec<u16>, Vec<bool>) {
+    let g = self.inner.lock();
+    (g.free_ids.iter().map(|i| i.0).collect(), g.pool.iter().map(|s| s.in_kernel_use).collect())
+  }
+
   /// Unregisters all buffers from io_uring. Called on UringWorker shutdown.
   pub unsafe fn unregister_all(&self, ring: &IoUring) -> Result<(), ZmqError> {
     let inner_guard = self.inner.lock(); // Ensure no modifications during unregister
